@@ -57,3 +57,6 @@ pub mod snapshots;
 pub use snapshots::Snapshot;
 
 pub use utils::cache::Cache;
+
+#[cfg(raindb_verif)]
+pub mod verif_hooks;
